@@ -1,21 +1,13 @@
 #!/bin/bash
 # Like eval_mutant.sh but on a scratch copy of a clean worktree (does not touch /repo). For development while /repo is busy.
-# usage: eval_mutant_scratch.sh <clean-tree> <patch.diff> [property ids...]
+# usage: eval_mutant_scratch.sh <clean-tree> <patch.diff>
 set -u
 CLEAN=$1; P=$(readlink -f "$2"); shift 2
 V=/verif
-props=${*:-$($V/bin/bwcheck list)}
 tmp=$(mktemp -d /tmp/bwevs-XXXXXX); mkdir -p $tmp/evidence $tmp/repo; cp $V/known_findings.json $tmp/
 rsync -a --exclude .git --exclude mutants "$CLEAN"/ $tmp/repo/
 (cd $tmp/repo && patch -p1 -s < "$P") || { echo "apply failed"; rm -rf $tmp; exit 2; }
 trap 'rm -rf $tmp' EXIT
-for p in $props; do
-  ( VERIF_DIR=$tmp $V/bin/bwcheck check -repo $tmp/repo -property $p > $tmp/$p.out 2>&1; echo "$p exit=$?" > $tmp/$p.rc ) &
-  while [ $(jobs -r | wc -l) -ge 6 ]; do sleep 0.2; done
-done
-wait
-for p in $props; do
-  rc=$(cat $tmp/$p.rc)
-  case "$rc" in *exit=0) ;; *) echo "$rc"; grep " rule=" $tmp/$p.out | grep -v KNOWN | cut -c1-260 | head -4;; esac
-done
+VERIF_DIR=$tmp $V/bin/bwcheck checkall -repo $tmp/repo > $tmp/all.out 2>&1
+grep -E "^C[0-9]+ exit=[12]| rule=" $tmp/all.out | grep -v KNOWN-FINDING | cut -c1-260
 echo "eval done"
